@@ -1046,7 +1046,7 @@ fn accessor_ops(r: &mut Rng, bytes: &[u8]) -> Vec<String> {
     ops
 }
 
-const RULE: &str = "#rule stream a: one byte string per case (valid encodings of random trees; truncated; every string length field replaced, same width or widened to 2/4/8 bytes, by 0, rem-1, rem, rem+1, 2^16-1, 2^32-1, 2^32, 2^63-1, 2^63, 2^64-1 and the values around the overflow point of 1+tag+8+len; byte and end-marker mutations; nesting up to 300; random typed and uniform bytes; known shapes) x every public accessor of TLVElement/TLVSequence/iterators, capped at len+2 steps; non-trivial = at least one accessor accepts and one rejects. stream w: one value tree per case (all tag forms, all integer widths at their extremes, floats by bit pattern incl. NaN payloads, UTF-8 and octet strings with 1/2/4/8-byte length fields, nulls, nesting) written by TLVWrite and by TLV::bytes_iter, decoded back with the public accessors; non-trivial = written and decoded. stream s: derived wire structures round-tripped. distinct = by case text";
+const RULE: &str = "#rule stream a: one byte string per case (valid encodings of random trees; truncated; every string length field replaced, same width or widened to 2/4/8 bytes, by 0, rem-1, rem, rem+1, 2^16-1, 2^32-1, 2^32, 2^63-1, 2^63, 2^64-1 and the values around the overflow point of 1+tag+8+len; byte and end-marker mutations; nesting up to 300; random typed and uniform bytes; known shapes) x every public accessor of TLVElement/TLVSequence/iterators, capped at len+2 steps; non-trivial = at least one accessor accepts and one rejects. stream w: one value tree per case (all tag forms, all integer widths at their extremes, floats by bit pattern incl. NaN payloads, UTF-8 and octet strings with 1/2/4/8-byte length fields, nulls, nesting) written by TLVWrite and by TLV::bytes_iter, decoded back with the public accessors; non-trivial = written and decoded. stream s: derived wire structures round-tripped (32 real structures incl. signed-integer fields; 45 derive shapes: tag numbering, wrappers, signed integers of every width at the bounds of every element type, float bit patterns incl. NaN payloads / signed zeros / subnormals, [T; N] arrays, bitflags with all / no / undeclared bits), then decoded from truncated / mutated / field-permuted encodings and from arrays with items removed / added. distinct = by case text";
 
 pub fn gen(a: &Args) -> String {
     watchdog_start(&a.out);
@@ -1058,7 +1058,7 @@ pub fn gen(a: &Args) -> String {
     out.buf.push('\n');
     let n_a = if a.thorough { 40_000 } else { 8_000 };
     let n_w = if a.thorough { 12_000 } else { 3_000 };
-    let n_s = if a.thorough { 6_000 } else { 1_500 };
+    let n_s = if a.thorough { 8_000 } else { 2_000 };
     let mut id = 0u64;
     for _ in 0..n_a {
         let mut cr = r.fork();
